@@ -44,7 +44,7 @@ def run(ctx):
         offending += gen_hardwired.hardwired_check(cur, hw)
 
     harness = common.build_harness("c08_lookup")
-    driver = tables.build_driver_s("C08")
+    driver = common.build_driver("C08")
     rng = common.Rng(ctx.seed, 8)
     cases = tables.lookup_cases(cur, rng)
     if getattr(ctx, "replay", None):
